@@ -16,6 +16,13 @@ COMMON_NOTE = (
 
 # id -> (level category, level text, technique, design ref, extra note)
 CLAIMED = {
+    "C03": (
+        "proof",
+        "For every RSL construction site (every PartonicChannel subclass found by module scan x order 0..3 x nf 3..6; every split.raw_labels entry) the real class and order method are executed on symbolic z, x, Q2, m2 and the obligations 'd/dz loc + sing == 0' (mechanical differentiation + exact normaliser in Q(atoms) with z3-proved log factorisation), 'every denominator != 0 / log argument > 0 / sqrt argument >= 0 on the family's domain' (z3) and 'each part is one real scalar' are discharged; plus the generic contract of from_distr_coeffs for coefficient vectors of length 1..6.",
+        "contract-based deductive verification: symbolic execution of the real kernels + mechanical differentiation + exact normaliser + z3",
+        "DESIGN 4 C03",
+        "L-FTC assumed; li2/nielsen/spence/LeProHQ/adani/splines are atoms or uninterpreted (finiteness assumed); tolerance 1e-5 for the rounded published NNLO/N3LO parametrisations.",
+    ),
     "C10": (
         "proof",
         "Contracts on the four TMC kernels, the TMC base class (__init__, get_result dispatch, _convolve_FX, _h2/_g2/_k1/_k2/_h3) and the nine _get_result_* methods of ESFTMC_F2/FL/F3/g1: with symbolic x, Q2, M2 (rho as a sqrt atom), abstract structure functions and abstract integrals whose weight class is decided semantically from the kernel the code passes, every result equals the literature formula in spec/tmc.py (own kind, own heavyness, shifted point xi), APFEL = exact minus the nested integral, M=0 gives the uncorrected F(x), xi below the grid raises ValueError.",
